@@ -600,7 +600,7 @@ func readJournal() (Round, string) {
 func (c *component) supervise(t *testing.T, total int, fixed *Round) {
 	remaining := total
 	const maxCrashes = 3
-	budgetEnd := time.Now().Add(time.Duration(vkit.Pick(10, 100)) * time.Second)
+	budgetEnd := time.Now().Add(time.Duration(vkit.Pick(8, 100)) * time.Second)
 	if fixed != nil {
 		budgetEnd = time.Now().Add(240 * time.Second) // replay: the round count is the bound
 	}
